@@ -27,6 +27,9 @@ inductive IState where
   | donchian (s : Channel) | pchannel (s : Channel) | keltner (s : Keltner) | env (s : Env)
   | ichi (s : Ichi) | cmf (s : CMF) | mfi (s : MFI) | cmo (s : CMO) | tsi (s : TSIx) | smi (s : TSIx)
   | sar (s : SAR)
+  | ao (s : AO) | chaikinOsc (s : ChaikinOsc) | cciInd (s : CCIInd) | woodies (s : Woodies) | coppock (s : Coppock)
+  | dpo (s : DPO) | eom (s : EoM) | efi (s : EFI) | hull (s : HullInd) | kaufman (s : Kaufman) | momIdx (s : MomIdx)
+  | trix (s : Trix) | klinger (s : Klinger) | kst (s : KST) | rvi (s : RVI) | pivot (s : PivotRS) | cks (s : CKS) | adx (s : ADX)
 
 /-- expectation for one signal slot -/
 inductive SigExp where
@@ -61,6 +64,13 @@ def maKinds (ts : Toks) : List String :=
       else go (b :: r)
     | _ => []
   go ts
+
+/-- the candle source as the implementation computes it (every operation rounded) -/
+def srcF (k : Candle Rat) : Source → Rat
+  | .close => k.close | .open_ => k.open_ | .high => k.high | .low => k.low | .volume => k.volume
+  | .hl2 => rne53 (rne53 (k.high + k.low) * (1 / 2))
+  | .tp => rne53 (rne53 (rne53 (k.high + k.low) + k.close) / 3)
+  | .volumedPrice => rne53 (rne53 (rne53 (rne53 (k.high + k.low) + k.close) / 3) * k.volume)
 
 /-- `none`: the indicator has no model (its values are outside C05/C06; C12 finiteness still applies) -/
 def iNew (P : Nat) (name : String) (cfg : Toks) (k : Candle Rat) : Option (Res IState) :=
@@ -113,6 +123,64 @@ def iNew (P : Nat) (name : String) (cfg : Toks) (k : Candle Rat) : Option (Res I
   | "ParabolicSAR" => do
     let (a, r) ← takeF cfg; let (b, _) ← takeF r
     pure ((SAR.init a b k).map .sar)
+  | "AwesomeOscillator" => do
+    let (a, r) ← takeMA cfg; let (b, r) ← takeMA r; let (src, r) ← takeSrc r; let (l, r) ← takeI r; let (rt, r) ← takeI r; let (cp, _) ← takeI r
+    pure ((AO.init P { ma1 := a, ma2 := b, source := src, left := l, right := rt, conseq_peaks := cp } k).map .ao)
+  | "ChaikinOscillator" => do
+    let (a, r) ← takeMA cfg; let (b, r) ← takeMA r; let (w, _) ← takeI r
+    pure ((ChaikinOsc.init P a b w k).map .chaikinOsc)
+  | "CommodityChannelIndex" => do
+    let (n, r) ← takeI cfg; let (z, r) ← takeF r; let (src, _) ← takeSrc r
+    pure ((CCIInd.init P n z src (rne53 (2 / 3)) k).map .cciInd)
+  | "WoodiesCCI" => do
+    let (a, r) ← takeI cfg; let (b, r) ← takeI r; let (lag, r) ← takeI r; let (src, _) ← takeSrc r
+    pure ((Woodies.init P a b lag src (rne53 (2 / 3)) k).map .woodies)
+  | "CoppockCurve" => do
+    let (a, r) ← takeMA cfg; let (b, r) ← takeMA r; let (p2, r) ← takeI r; let (p3, r) ← takeI r
+    let (l, r) ← takeI r; let (rt, r) ← takeI r; let (src, _) ← takeSrc r
+    pure ((Coppock.init P a b p2 p3 l rt src k).map .coppock)
+  | "DetrendedPriceOscillator" => do
+    let (a, r) ← takeMA cfg; let (src, _) ← takeSrc r
+    pure ((DPO.init P a src k).map .dpo)
+  | "EaseOfMovement" => do
+    let (a, r) ← takeMA cfg; let (p2, _) ← takeI r
+    pure ((EoM.init P a p2 k).map .eom)
+  | "EldersForceIndex" => do
+    let (a, r) ← takeMA cfg; let (p2, r) ← takeI r; let (src, _) ← takeSrc r
+    pure ((EFI.init P a p2 src k).map .efi)
+  | "HullMovingAverage" => do
+    let (n, r) ← takeI cfg; let (l, r) ← takeI r; let (rt, r) ← takeI r; let (src, _) ← takeSrc r
+    pure ((HullInd.init P n l rt src k).map .hull)
+  | "Kaufman" => do
+    let (p1, r) ← takeI cfg; let (p2, r) ← takeI r; let (p3, r) ← takeI r; let (fp, r) ← takeI r
+    let (sq, r) ← takeI r; let (kk, r) ← takeF r; let (src, _) ← takeSrc r
+    pure ((Kaufman.init P { period1 := p1, period2 := p2, period3 := p3, filter_period := fp, square_smooth := sq != 0,
+                            k := kk, source := src } k).map .kaufman)
+  | "MomentumIndex" => do
+    let (a, r) ← takeI cfg; let (b, r) ← takeI r; let (src, _) ← takeSrc r
+    pure ((MomIdx.init P a b src k).map .momIdx)
+  | "Trix" => do
+    let (n, r) ← takeI cfg; let (sg, r) ← takeMA r; let (src, _) ← takeSrc r
+    pure ((Trix.init P n sg src k).map .trix)
+  | "KlingerVolumeOscillator" => do
+    let (a, r) ← takeMA cfg; let (b, r) ← takeMA r; let (sg, _) ← takeMA r
+    pure ((Klinger.init P a b sg (srcF k .tp)).map .klinger)
+  | "KnowSureThing" => do
+    let (p1, r) ← takeI cfg; let (p2, r) ← takeI r; let (p3, r) ← takeI r; let (p4, r) ← takeI r
+    let (m1, r) ← takeMA r; let (m2, r) ← takeMA r; let (m3, r) ← takeMA r; let (m4, r) ← takeMA r; let (sg, _) ← takeMA r
+    pure ((KST.init P [p1, p2, p3, p4] [m1, m2, m3, m4] sg k).map .kst)
+  | "RelativeVigorIndex" => do
+    let (p1, r) ← takeI cfg; let (p2, r) ← takeI r; let (sg, r) ← takeMA r; let (z, _) ← takeF r
+    pure ((RVI.init P p1 p2 sg z k).map .rvi)
+  | "PivotReversalStrategy" => do
+    let (l, r) ← takeI cfg; let (rt, _) ← takeI r
+    pure ((PivotRS.init P l rt k).map .pivot)
+  | "ChandeKrollStop" => do
+    let (a, r) ← takeMA cfg; let (x, r) ← takeF r; let (q, r) ← takeI r; let (src, _) ← takeSrc r
+    pure ((CKS.init P a x q src k).map .cks)
+  | "AverageDirectionalIndex" => do
+    let (a, r) ← takeMA cfg; let (b, r) ← takeMA r; let (p1, r) ← takeI r; let (z, _) ← takeF r
+    pure ((ADX.init P a b p1 z k).map .adx)
   | _ => none
 
 def IState.winLen : IState → Nat
@@ -130,13 +198,24 @@ def IState.winLen : IState → Nat
   | .cmo s => s.cfg.period + 1
   | .tsi s | .smi s => s.smooth.winLen
   | .sar _ => 0
-
-/-- the candle source as the implementation computes it (every operation rounded) -/
-def srcF (k : Candle Rat) : Source → Rat
-  | .close => k.close | .open_ => k.open_ | .high => k.high | .low => k.low | .volume => k.volume
-  | .hl2 => rne53 (rne53 (k.high + k.low) * (1 / 2))
-  | .tp => rne53 (rne53 (rne53 (k.high + k.low) + k.close) / 3)
-  | .volumedPrice => rne53 (rne53 (rne53 (rne53 (k.high + k.low) + k.close) / 3) * k.volume)
+  | .ao s => s.ma1.winLen + s.ma2.winLen
+  | .chaikinOsc s => s.ma1.winLen + s.ma2.winLen + s.adi.window.size
+  | .cciInd s => 2 * s.cci.mad.sma.window.size
+  | .woodies s => 2 * (s.turbo.mad.sma.window.size + s.trend.mad.sma.window.size)
+  | .coppock s => s.ma1.winLen + s.ma2.winLen + s.roc1.window.size + s.roc2.window.size
+  | .dpo s => s.sma.winLen + s.window.size
+  | .eom s => s.m1.winLen + s.w.size
+  | .efi s => s.ma.winLen + s.window.size
+  | .hull s => s.hma.wma1.window.size + s.hma.wma2.window.size + s.hma.wma3.window.size
+  | .kaufman s => s.volatility.window.size + s.change.window.size
+  | .momIdx s => s.m1.window.size + s.m2.window.size
+  | .trix s => s.sig.winLen + 1
+  | .klinger s => s.ma1.winLen + s.ma2.winLen + s.ma3.winLen
+  | .kst s => (s.mas.map (·.winLen)).sum + s.ma5.winLen + (s.roc.map (·.window.size)).sum
+  | .rvi s => s.swma1.left_window.size + s.swma1.right_window.size + s.sma1.window.size + s.sma2.window.size + s.ma.winLen
+  | .pivot _ => 0
+  | .cks s => s.ma.winLen + s.highest1.window.size + s.highest2.window.size
+  | .adx s => s.tr_ma.winLen + s.plus_di.winLen + s.ma2.winLen + s.window.size
 
 structure StepOut where
   vals : List VExp
@@ -149,7 +228,8 @@ def exacts (l : List Action) : List SigExp := l.map .exact
 
 /-- one step: the model's values (later stages fed with the implementation's earlier values `rv`), and the
     signals the documented rule yields from `rv` -/
-def iStep (P : Nat) (eps : Rat) (st : IState) (k : Candle Rat) (rv : List Rat) : Except Panic StepOut :=
+def iStep (P : Nat) (ctx : Ctx) (st : IState) (k : Candle Rat) (rv : List Rat) (rsig : List String := []) (flat : Bool := false) : Except Panic StepOut :=
+  let eps := ctx.eps
   match st with
   | .macd s => do
     let (v, s1) ← s.vals k (some rv)
@@ -215,6 +295,88 @@ def iStep (P : Nat) (eps : Rat) (st : IState) (k : Candle Rat) (rv : List Rat) :
     let (v, s1) ← s.vals k (some rv) true
     let (sg, s2) := s1.sigsSMI rv
     pure { vals := v, sigs := exacts sg, st := .smi s2 }
+  | .ao s => do
+    let (v, s1) ← s.vals k
+    let (sg, s2) ← s1.sigs rv
+    pure { vals := v, sigs := exacts sg, st := .ao s2 }
+  | .chaikinOsc s => do
+    let (v, s1) ← s.vals k
+    let (sg, s2) := s1.sigs rv
+    pure { vals := v, sigs := exacts sg, st := .chaikinOsc s2 }
+  | .cciInd s => do
+    let (v, s1) ← s.vals k
+    let (sg, s2) := s1.sigs rv
+    pure { vals := v, sigs := exacts sg, st := .cciInd s2 }
+  | .woodies s => do
+    let (v, s1) ← s.vals k
+    let (sg, s2) := s1.sigs rv
+    pure { vals := v, sigs := exacts sg, st := .woodies s2 }
+  | .coppock s => do
+    let undef := s.undefinedNext
+    let (v, s1) ← s.vals k (some rv)
+    let (sg, s2) ← s1.sigs rv
+    pure { vals := v, sigs := exacts sg, st := .coppock s2, borderline := undef }
+  | .dpo s => do
+    let (v, s1) ← s.vals k
+    pure { vals := v, sigs := [], st := .dpo s1 }
+  | .eom s => do
+    let (v, s1) ← s.vals k
+    let (sg, s2) := s1.sigs rv
+    pure { vals := v, sigs := exacts sg, st := .eom s2 }
+  | .efi s => do
+    let (v, s1) ← s.vals k
+    let (sg, s2) := s1.sigs rv
+    pure { vals := v, sigs := exacts sg, st := .efi s2 }
+  | .hull s => do
+    let (v, s1) ← s.vals k
+    let (sg, s2) ← s1.sigs rv
+    pure { vals := v, sigs := exacts sg, st := .hull s2 }
+  | .kaufman s => do
+    let (v, s1) ← s.vals k (some rv)
+    let (sg, s2, cmp) ← s1.sigs (srcF k s.cfg.source) rv
+    -- the filter compares with a square root of a running variance: exempt within the allowance of that variance
+    let near : Bool := match cmp with
+      | some (lhs, rhs) => decide (ratAbs (lhs - rhs) ≤ s.cfg.k * s.cfg.k * ctx.allow (ctx.M * ctx.M) + (lhs + rhs) / 1000000000)
+      | none => false
+    -- an exempt decision leaves the latch in the state the implementation chose: fired (latch cleared) or not (latch kept)
+    let fired := rsig.headD "aN" != "aN"
+    let s3 := if near then { s2 with last_signal := if fired then Action.none else s1.last_signal } else s2
+    pure { vals := v, sigs := if near then sg.map (fun _ => SigExp.exempt) else exacts sg, st := .kaufman s3 }
+  | .momIdx s => do
+    let (v, s1) ← s.vals k
+    pure { vals := v, sigs := exacts [MomIdx.sig rv], st := .momIdx s1 }
+  | .trix s => do
+    let (v, s1) ← s.vals k (some rv)
+    let (sg, s2) ← s1.sigs rv
+    pure { vals := v, sigs := exacts sg, st := .trix s2 }
+  | .klinger s => do
+    let (v, s1) ← s.vals k (srcF k .tp) (some rv)
+    let (sg, s2) := s1.sigs rv
+    pure { vals := v, sigs := exacts sg, st := .klinger s2 }
+  | .kst s => do
+    let undef := s.undefinedNext
+    let (v, s1) ← s.vals k (some rv)
+    let (sg, s2) := s1.sigs rv
+    pure { vals := v, sigs := exacts sg, st := .kst s2, borderline := undef }
+  | .rvi s => do
+    let (v, s1) ← s.vals k (some rv)
+    let (sg, s2) := s1.sigs rv
+    pure { vals := v, sigs := exacts sg, st := .rvi s2 }
+  | .pivot s => do
+    let (sg, s1) ← s.next k
+    pure { vals := [], sigs := exacts sg, st := .pivot s1 }
+  | .cks s => do
+    let (v, s1) ← s.vals k
+    let ((value, a2), s2) := s1.sigs rv
+    -- `(src − mid)/size` is formed from rounded operands: the cancellation error is relative to their magnitudes
+    let mid := (rv.getD 2 0 + rv.getD 0 0) * (1 / 2)
+    let size := mid - rv.getD 0 0
+    let δ := if size == 0 then 0 else 16 * eps * ((ratAbs (rv.getD 1 0) + ratAbs mid) / ratAbs size + ratAbs value + 1)
+    pure { vals := v, sigs := [.prop value δ, .exact a2], st := .cks s2 }
+  | .adx s => do
+    let (v, s1, trZero) ← s.vals k (some rv)
+    let (a1, arg) := s1.sigs rv
+    pure { vals := v, sigs := [.exact a1, .prop arg (8 * eps * (ratAbs arg + 1))], st := .adx s1, borderline := trZero && !flat }
   | .sar s =>
     let tol := 64 * eps * (ratAbs s.sar + ratAbs k.low + ratAbs k.high)
     let near := ratAbs (k.low - s.sar) ≤ tol || ratAbs (k.high - s.sar) ≤ tol
@@ -245,7 +407,7 @@ def bumpCandle (c : Ctx) (srcs : List Source) (k : Candle Rat) : Ctx :=
 
 /-! ### C05: values -/
 def scaleOf (c : Ctx) : Scale → Rat
-  | .price => c.M | .vol => c.Mv | .unit => 1
+  | .price => c.M | .vol => c.Mv | .unit => 1 | .abs m => m
 
 /-- `flat`: every candle so far equals the first one (then exact `== 0` guards are decided exactly) -/
 def cmpV (c : Ctx) (flat : Bool) (e : VExp) (tok : String) (rv : List Rat) : Verdict :=
